@@ -275,6 +275,16 @@ class Interp:
                 mid.charset = op[1]
                 model['charset'] = op[1]
                 self._edit()
+            elif kind == 'poke_yielded':
+                # messages handed out by iteration / play are the caller's copies
+                try:
+                    for m in mid:
+                        m.time = 31337
+                        if hasattr(m, 'note'):
+                            m.note = 1
+                except TypeError:
+                    pass
+                self._edit()
             elif kind == 'poke_merged':
                 # the caller scribbles on a RESULT (the merged track it was handed): the file itself is unchanged
                 try:
@@ -413,6 +423,10 @@ class FileMachine(RuleBasedStateMachine):
     def poke_merged(self):
         self.ops.append(['poke_merged'])
 
+    @rule()
+    def poke_yielded(self):
+        self.ops.append(['poke_yielded'])
+
     @rule(what=st.sampled_from(['iter', 'length', 'merged', 'play', 'save', 'play-abandoned', 'iter-abandoned']))
     def observe(self, what):
         self.ops.append(['observe', what])
@@ -438,7 +452,7 @@ def main(ctx):
     # the documented two-message example and its variants, for every observation pair
     for first in ('length', 'iter', 'merged', 'play', 'save', 'play-abandoned', 'iter-abandoned'):
         for second in ('length', 'iter', 'merged', 'play', 'save'):
-            for edit in (['poke_merged'], ['charset', 'utf-8'], ['msg_append', 0, 7, 10], ['msg_append', 0, 1, 480], ['msg_set', 0, 0, 'time', 960], ['msg_set', 0, 0, 'field', 5],
+            for edit in (['poke_merged'], ['poke_yielded'], ['charset', 'utf-8'], ['msg_append', 0, 7, 10], ['msg_append', 0, 1, 480], ['msg_set', 0, 0, 'time', 960], ['msg_set', 0, 0, 'field', 5],
                          ['msg_replace', 0, 3, 0, 0], ['tracks_append', [[0, 480]]], ['tpb', 96], ['msg_del', 0, 0],
                          ['tracks_replace', 0], ['name', 0, 'q']):
                 ctx.check({'ops': [['add_track', None], ['msg_append', 0, 0, 480], ['msg_append', 0, 2, 0],
